@@ -10,6 +10,10 @@ import (
 	"encoding/json"
 	"fmt"
 	"os"
+	"time"
+
+	"github.com/nyaruka/gocommon/dates"
+	"github.com/nyaruka/gocommon/uuids"
 )
 
 type input struct {
@@ -157,6 +161,14 @@ func Unwind(n int) {}
 // SymbolicMapOrder makes every following range over a map take an arbitrary
 // order symbolically; natively Go's own randomisation applies.
 func SymbolicMapOrder(on bool) {}
+
+// ResetEnv restarts the deterministic clock and UUID source, so that two
+// executions inside one harness see the same streams (2-run self-composition).
+// Symbolically the executor resets its own stubs.
+func ResetEnv() {
+	uuids.SetGenerator(uuids.NewSeededGenerator(1234, dates.NewSequentialNow(time.Date(2025, 1, 1, 0, 0, 0, 0, time.UTC), time.Second)))
+	dates.SetNowFunc(dates.NewSequentialNow(time.Date(2025, 1, 1, 0, 0, 0, 0, time.UTC), time.Second))
+}
 
 // Run executes fn natively and reports how it ended.
 func Run(fn func()) (outcome string, detail string) {
